@@ -8,6 +8,7 @@
 //	url         maurl.FromURL(u).String() and maurl.ToURL(maurl.FromURL(u))
 //	tourl       maurl.ToURL on parsed multiaddrs (tls/http, https, ws, legacy httpath, ...)
 //	fp, fh, clean, eq   mautil.FilterPublic, FindHTTPAddrs, CleanPeerAddrInfo, MultiaddrsEqual
+//	sync        requests a real ipnisync client sends to a publisher advertised by URL (sync.go)
 //
 // Direct oracles (Go only, from the property text) run on every case; see url.go,
 // lists.go.
@@ -69,6 +70,7 @@ func main() {
 	c.Family("fh", mautilReq, "fh_case_ok", 400)
 	c.Family("clean", mautilReq, "clean_case_ok", 400)
 	c.Family("eq", mautilReq, "eq_case_ok", 500)
+	c.Family("sync", maurlReq, "sync_case_ok", 300)
 	initPool()
 
 	if c.Replay != "" {
@@ -91,6 +93,7 @@ func main() {
 	runURL(c)
 	runToURL(c)
 	runLists(c)
+	runSyncCases(c)
 }
 
 func runReplay(c *vlib.Ctx, r replay) {
@@ -112,6 +115,11 @@ func runReplay(c *vlib.Ctx, r replay) {
 		doList(c, r.Fn, fromNames(r.A), true)
 	case "eq":
 		doEq(c, fromNames(r.A), fromNames(r.B), true)
+	case "sync":
+		p, _ := hex.DecodeString(r.Path)
+		w := newSyncWorld()
+		defer w.close()
+		doSync(c, w, r.HKind, p, true)
 	case "esc":
 		s, _ := hex.DecodeString(r.S)
 		doEsc(c, s, true)
